@@ -4,7 +4,7 @@ From Coq Require Import Reals List Lra.
 From Coq Require Import QArith Qcanon.
 From Coquelicot Require Import Complex.
 From AL Require Import Base.CaseLib C13.Model C13.Spec C13.Check C13.Proofs_Base C13.Proofs_Ord2 C13.Proofs_Reson2
-  C13.Proofs_Comb C13.Proofs_Gamma C13.Proofs_Examples.
+  C13.Proofs_Comb C13.Proofs_Gamma C13.Proofs_Examples C13.Proofs_Shape.
 Import ListNotations.
 Open Scope R_scope.
 
@@ -128,10 +128,24 @@ Theorem C13_stream_param_pointwise : forall (P : Type) (design : P -> filt) para
 Proof. intros P design params n. unfold stream_design. apply nth_error_map. Qed.
 Print Assumptions C13_stream_param_pointwise.
 
+(* ---- the orders checked structurally on the implementation (Check.shape) are the model's *)
+Theorem C13_shape_correct : forall p1 p2 : R,
+  lens (lowpass_pole p1) = shape LPpole /\ lens (highpass_pole p1) = shape HPpole /\
+  lens (lowpass_z p1) = shape LPz /\ lens (highpass_z p1) = shape HPz /\
+  lens (lowpass_pole_exp p1) = shape LPpole_exp /\ lens (highpass_pole_exp p1) = shape HPpole_exp /\
+  lens (lowpass_z_exp p1) = shape LPz_exp /\ lens (highpass_z_exp p1) = shape HPz_exp /\
+  lens (resonator_poles_exp p1 p2) = shape RSpoles_exp /\
+  lens (resonator_freq_poles_exp p1 p2) = shape RSfreq_poles_exp /\
+  lens (resonator_z_exp p1 p2) = shape RSz_exp /\ lens (resonator_freq_z_exp p1 p2) = shape RSfreq_z_exp /\
+  Forall (fun f => lens f = shape GTslaney) (gammatone_slaney p1 p2) /\
+  (forall ph, lens (nth 0 (gammatone_sampled p1 p2 ph 4) (Filt [] [])) = shape (GTsampled0 4)) /\
+  (forall ph, Forall (fun f => lens f = shape GTsampledN) (tl (gammatone_sampled p1 p2 ph 4))).
+Proof. exact shape_correct. Qed.
+Print Assumptions C13_shape_correct.
+
 (* ---- non-vacuity *)
 Example C13_reson_comb_instances :
-  (0 < 7 / 10 < PI /\ 0 < 1 / 5 /\ -1 <= z_exp_cost (7 / 10) (1 / 5) <= 1 /\
-   Rabs (resonator_R (1 / 5) - 0.904837) <= 0.000001) /\
+  (0 < PI / 2 < PI /\ 0 < 1 / 5 /\ -1 <= z_exp_cost (PI / 2) (1 / 5) <= 1) /\
   run (comb_fb 2 (qc 1 2)) [qc 1 1; qc 0 1; qc 0 1; qc 0 1; qc 0 1] = [qc 1 1; qc 0 1; qc 1 2; qc 0 1; qc 1 4] /\
   run (comb_ff 1 (qc (-1) 3)) [qc 1 1; qc 2 1; qc 3 1] = [qc 1 1; qc 5 3; qc 7 3].
 Proof. exact reson_comb_instances. Qed.
